@@ -211,16 +211,17 @@ def check_cases(ctx, cases):
     for part in parts:
         srcs.append("From PFL Require Import Eval.FA.\nFrom PFL Require Import Eval.CFG.\n" + "\n".join(lines[j] for j in part) + "\n")
     nmain = len(srcs)
-    if lab_lines:
-        srcs.append("From PFL Require Import Eval.Labels.\n" + "\n".join(lab_lines) + "\n")
+    lab_parts = [list(range(k, min(k + 400, len(lab_lines)))) for k in range(0, len(lab_lines), 400)]
+    for part in lab_parts:
+        srcs.append("From PFL Require Import Eval.Labels.\n" + "\n".join(lab_lines[j] for j in part) + "\n")
     outs = ctx.coq(srcs) if srcs else []
     verdicts = {}
     for part, vals in zip(parts, outs[:nmain]):
         for j, v in zip(part, vals):
             verdicts[owners[j]] = v
-    if lab_lines:
-        for i, v in zip(lab_owners, outs[nmain]):
-            verdicts[(i, "label")] = v
+    for part, vals in zip(lab_parts, outs[nmain:]):
+        for j, v in zip(part, vals):
+            verdicts[(lab_owners[j], "label")] = v
     for i, c in enumerate(cases):
         o = obs[i]
         ctx.dist[c["op"]] += 1
